@@ -7,6 +7,10 @@ import Rare.Model.C06Tree
 import Rare.Proofs.C06Match
 import Rare.Proofs.C06GlobP
 import Rare.Proofs.C06Walk
+import Rare.Proofs.C06Gzip
+import Rare.Proofs.C06Pipe
+import Rare.Proofs.C06ErrTrace
+import Rare.Proofs.C06Read
 /-!
 # C06 — named inputs are each read once, decoded faithfully, and failures are reported
 
@@ -29,6 +33,12 @@ functions mirroring go1.23 / rare, and `match_eq_spec`, `match_sound`, `match_ba
 * `exit_code_precedence` – over the regenerated if-chain of `DetermineErrorState`.
 * `gunzip_fallback`, `gunzip_decodes` – `-z` on non-gzip content delivers it from its first byte.
 * `code_shape` – the regenerated control skeletons equal the ones the model mirrors.
+
+Part 3 (end of the file; round 2): read faults – `read_fault_counted` (a failing `Read` is counted exactly once whatever
+comes with it), `errors_counted_before_close` (pipeline LTS with the error counter: all errors are counted before the
+batch channel closes, for every schedule), `error_count_precedes_done` (regenerated control tree), `errtrace_rule_sound`
+(the rule checked on event logs of real runs); gzip – `gzip_header_spec` (`gzip.NewReader`'s header parser = the RFC 1952
+member header, reserved bits ignored as Go does), `gunzip_decided_by_header`, `gzip_header_quirks`.
 -/
 namespace Rare.C06
 open Rare.Pipeline Rare.C01
@@ -795,5 +805,206 @@ example : planFiles (treeFs exTree) true [nLogs, [120, 91, 49, 93], [120, 91, 49
      [108, 111, 103, 115, 47, 115, 117, 98, 47, 99, 46, 108, 111, 103], [108, 111, 103, 115, 47, 115, 117, 98, 47, 108, 110],
      [108, 111, 103, 115, 47, 195, 169, 240, 159, 152, 128, 46, 108, 111, 103],
      [120, 91, 49, 93], [120, 91, 49, 93], [97, 91]] := by decide +kernel
+
+/-! # Read faults: counted once, and counted before the end of the inputs is visible -/
+
+/-- **A failing read is counted exactly once whatever comes with it** (the scanner under the reader goroutine,
+    C04's model of `ImmediateReadAhead` over a scripted reader).  If the first `Read` that returns an error
+    returns a failure – with no bytes or WITH bytes, containing a line end or not (what `compress/gzip` does
+    for a stream cut inside a line) – then the `OnError` callback (⇒ `incErrors`) has fired exactly once at the
+    end of the scan, and the lines handed on are the lines of all the bytes delivered.  So the abstraction
+    `runStream name delivered true` used by `runFile` (one error, `splitLines delivered`) is what the code does. -/
+theorem read_fault_counted (bufSize : Nat) (data : Bytes) (script : List C04.Step) (h : 1 ≤ bufSize)
+    (hf : C04.failsFirst script = true) (name : Bytes) :
+    (C04.Imm.run bufSize data script).2.2.errs = 1 ∧
+    (C04.Imm.run bufSize data script).1.map (·.2) = C04.splitLines (C04.Imm.run bufSize data script).2.2.delivered ∧
+    (runStream name (C04.Imm.run bufSize data script).2.2.delivered true).errs
+      = (C04.Imm.run bufSize data script).2.2.errs ∧
+    (runStream name (C04.Imm.run bufSize data script).2.2.delivered true).lines
+      = (C04.Imm.run bufSize data script).1.map (·.2) := by
+  obtain ⟨h1, h2⟩ := C04.imm_fault_counted bufSize data script h hf
+  exact ⟨h1, h2, by simp [runStream, h1], by simp [runStream, h2]⟩
+
+/-- the error arrives together with the last bytes, which hold no line end (`k` + failure): one error, the
+    partial line is handed on -/
+example : C04.failsFirst [⟨1, some .fail⟩] = true ∧
+    (C04.Imm.run 16 [107] [⟨1, some .fail⟩]).2.2.errs = 1 ∧
+    (C04.Imm.run 16 [107] [⟨1, some .fail⟩]).1.map (·.2) = [[107]] := by decide
+
+/-- **Every read/open error of a source is counted before the batch channel closes** – in the pipeline transition
+    system extended with the batcher's error counter (`Model/C06Pipe.lean`): `fails[i]` says that source `i`
+    will call `incErrors` (its open fails / its reader fails; once per source by `read_fault_counted` and
+    `errors_counted`).  For every reader/worker count, channel capacity and EVERY schedule, in every reachable
+    state: a source that is `done` (its goroutine passed `wg.Done()`) has its error counted; counted + still
+    pending = number of failing sources; hence as soon as the batch channel is closed – a fortiori when the
+    consumer has seen the end of the stream and `DetermineErrorState` reads `ReadErrors()` – the counter equals
+    the number of failing sources.  The run projects onto a run of the C01 pipeline (all C01/C06 theorems apply). -/
+theorem errors_counted_before_close {α : Type} [DecidableEq α] (cls : α → Cls) (R B K W : Nat)
+    (inputs : List (List (List α))) (fails : List Bool) (hl : fails.length = inputs.length)
+    {es : Pipe.ESt α} (hr : Pipe.EReach cls R B K (Pipe.einit inputs W fails) es) :
+    Reach cls R B K (init inputs W) es.lts ∧
+    es.errs + Pipe.pendingCount es.pending = Spec.specErrors fails ∧
+    (∀ i : Nat, es.lts.srcs[i]? = some SrcSt.done → es.pending[i]? ≠ some true) ∧
+    (es.lts.cClosed = true → es.errs = Spec.specErrors fails) ∧
+    (es.lts.consDone = true → W ≥ 1 → es.errs = Spec.specErrors fails) := by
+  have hproj : Reach cls R B K (init inputs W) es.lts := Pipe.ereach_proj hr
+  have hinv := Pipe.einv_reach hr (Pipe.einv_init inputs W fails hl)
+  have hpinv := pipeline_invariant cls R B K W inputs hproj
+  have hclosed : es.lts.cClosed = true → es.errs = Spec.specErrors fails := by
+    intro hc
+    have h0 := Pipe.pending_zero_of_all_done hinv (hpinv.cclosed hc)
+    have := hinv.sum
+    simp only [Pipe.pendingCount, Spec.specErrors] at this h0 ⊢
+    omega
+  refine ⟨hproj, ?_, ?_, hclosed, ?_⟩
+  · have := hinv.sum
+    simpa [Pipe.pendingCount, Spec.specErrors] using this
+  · intro i hd hp
+    obtain ⟨st, hst, hnd⟩ := hinv.live i hp
+    rw [hd] at hst
+    cases hst
+    simp [SrcSt.isDone] at hnd
+  · intro hd hW
+    apply hclosed
+    have hrc := (hpinv.consdone hd).1
+    have hex := hpinv.rcclosed hrc
+    have hlen := reach_workers_length hproj
+    have hany : es.lts.workers.any WSt.isExited = true := by
+      cases hw : es.lts.workers with
+      | nil => rw [hw] at hlen; simp [init] at hlen; omega
+      | cons w ws =>
+        rw [hw] at hex
+        simp only [List.all_cons, Bool.and_eq_true] at hex
+        simp [hex.1]
+    exact (hpinv.exited hany).1
+
+/-- the extended system is not blocked by its guard: a failing source that has sent everything can always count its
+    error, and a source without a pending error finishes as in the pipeline -/
+theorem error_count_enabled {α : Type} (cls : α → Cls) (R B K : Nat) (es : Pipe.ESt α) (i : Nat)
+    (ha : es.lts.srcs[i]? = some (.active [])) :
+    (es.pending[i]? = some true →
+      Pipe.EStep cls R B K es { es with errs := es.errs + 1, pending := es.pending.set i false }) ∧
+    (es.pending[i]? ≠ some true →
+      Pipe.EStep cls R B K es { es with lts := { es.lts with srcs := es.lts.srcs.set i .done } }) := by
+  refine ⟨fun hp => .count es i [] ha hp, fun hp => ?_⟩
+  refine .move es _ (.finish es.lts i ha) ?_
+  intro j hj hd
+  by_cases e : j = i
+  · subst e; exact absurd hj hp
+  · simpa [List.getElem?_set_ne (Ne.symm e)] using hd
+
+/-- **The code counts before it signals**: over the control tree regenerated from `OpenFilesToChan`, on every
+    execution path of the reader goroutine nothing but `stopFileReading` (status display) runs after `wg.Done()`:
+    the statements that can count an error – `out.incErrors()` of the open-failure branch and
+    `out.syncReaderToBatcher(…)` with its `OnError` callback – all precede it, and the open-failure path does
+    count.  (The guard of `Pipe.EStep.move`; in real runs: the `errtrace` op.) -/
+theorem error_count_precedes_done :
+    ∀ t ∈ traces readerBody,
+      (t.dropWhile (· ≠ "do:wg.Done()")).drop 1 = ["do:out.stopFileReading(goFilename)"] ∧
+      ((t.takeWhile (· ≠ "do:wg.Done()")).contains "do:out.incErrors()" ∨
+       (t.takeWhile (· ≠ "do:wg.Done()")).contains "do:out.syncReaderToBatcher(goFilename,file,batchSize)") ∧
+      "do:out.incErrors()" ∉ t.dropWhile (· ≠ "do:wg.Done()") := by
+  decide
+
+/-- **The trace rule implies the order**: an event log that passes `ErrTrace.check` (no goroutine logs `src.err`
+    after its own `sema.rel`, every `sema.rel` precedes `c.wait`, `c.wait` precedes `c.close`) has every `src.err`
+    before `c.close`. -/
+theorem errtrace_rule_sound (tr : List ErrTrace.TEv) (h : ErrTrace.check tr = true) :
+    ∃ c, ErrTrace.posOf tr "cc" = some c ∧ ∀ (k : Nat) (e : ErrTrace.TEv), tr[k]? = some e → e.kind = "se" → k < c := by
+  obtain ⟨w, c, _, hc, _, hall⟩ := ErrTrace.check_sound tr h
+  refine ⟨c, hc, ?_⟩
+  intro k e hk hs
+  obtain ⟨_, _, _, _, _, _, _, hlt⟩ := hall k e hk hs
+  exact hlt
+
+/-- a log of the unchanged code (missing file after a good one, one reader) passes; the log of the code that counts
+    in the deferred block after `wg.Done()` does not -/
+example :
+    ErrTrace.check [⟨0, "aq", 0⟩, ⟨1, "rs", 0⟩, ⟨1, "so", 0⟩, ⟨1, "rl", 0⟩, ⟨0, "aq", 1⟩, ⟨2, "rs", 1⟩, ⟨2, "se", 9⟩,
+      ⟨2, "rl", 1⟩, ⟨1, "sc", 0⟩, ⟨0, "cw", 9⟩, ⟨0, "cc", 9⟩, ⟨2, "sc", 1⟩] = true ∧
+    ErrTrace.check [⟨0, "aq", 0⟩, ⟨1, "rs", 0⟩, ⟨1, "so", 0⟩, ⟨1, "rl", 0⟩, ⟨0, "aq", 1⟩, ⟨2, "rs", 1⟩,
+      ⟨2, "rl", 1⟩, ⟨0, "cw", 9⟩, ⟨0, "cc", 9⟩, ⟨2, "se", 9⟩, ⟨2, "sc", 1⟩] = false := by decide
+
+/-- `errors_counted_before_close` is not vacuous: a source that cannot be opened – the run in which it starts, counts
+    its error, finishes, and the channel closes -/
+example : ∃ es : Pipe.ESt Nat,
+    Pipe.EReach (fun _ => Cls.matched) 1 1 1 (Pipe.einit [[]] 1 [true]) es ∧
+    es.lts.cClosed = true ∧ es.errs = 1 := by
+  have r1 : Pipe.EReach (fun _ : Nat => Cls.matched) 1 1 1 (Pipe.einit [[]] 1 [true]) _ :=
+    .step .refl (.move _ _ (.start _ 0 [] rfl (by decide)) (by intro i _ hd; cases i <;> simp [Pipe.einit, init] at hd))
+  have r2 := Pipe.EReach.step r1 (.count _ 0 [] rfl rfl)
+  have r3 := Pipe.EReach.step r2 (.move _ _ (.finish _ 0 rfl) (by intro i hp _; cases i <;> simp [Pipe.einit] at hp))
+  have r4 := Pipe.EReach.step r3 (.move _ _ (.closeC _ (by decide) rfl) (by intro i _ hd; exact hd))
+  exact ⟨_, r4, rfl, rfl⟩
+
+/-! # gzip: what IS a gzip file is decided by the model of the header parser -/
+
+/-- **`gzip.NewReader` accepts exactly the RFC 1952 member headers** (as Go reads them: FTEXT and the reserved flag
+    bits are not looked at): `readHeader s = ok n` iff `s` begins with the encoding of a header – magic `1f 8b`,
+    CM = 8, FLG, six fixed bytes, then, as the FLG bits say, XLEN + extra field, zero-terminated name, zero-terminated
+    comment (each at most 511 bytes), CRC16 of all that – and `n` is the length of that encoding, i.e. the offset at
+    which the DEFLATE data starts. -/
+theorem gzip_header_spec (s : Bytes) (n : Nat) :
+    Gz.readHeader s = .ok n ↔ ∃ hd : Gz.Hdr, hd.WF ∧ hd.encode <+: s ∧ n = hd.encode.length := by
+  constructor
+  · intro h
+    unfold Gz.readHeader at h
+    cases hr : Gz.readHeaderRest s with
+    | error e => simp [hr] at h
+    | ok rest =>
+      simp only [hr, Gz.HdrRes.ok.injEq] at h
+      obtain ⟨hd, hw, hs⟩ := Gz.readHeaderRest_sound s rest hr
+      refine ⟨hd, hw, ⟨rest, hs.symm⟩, ?_⟩
+      rw [← h, hs]; simp
+  · intro ⟨hd, hw, ⟨rest, hs⟩, hn⟩
+    unfold Gz.readHeader
+    rw [← hs, Gz.readHeaderRest_encode hd hw rest, hn]
+    simp
+
+/-- **With `-z` a file is read through the gzip reader iff it begins with such a header; every other file is read
+    as it is, from its first byte, without a read error.** -/
+theorem gunzip_decided_by_header (name : Path) (f : FileOracle) (ho : f.canOpen = true) (hd : f.isDir = false) :
+    (f.gzHeaderOk = true ↔ ∃ hd : Gz.Hdr, hd.WF ∧ hd.encode <+: f.content) ∧
+    ((¬ ∃ hd : Gz.Hdr, hd.WF ∧ hd.encode <+: f.content) →
+      readOutcome f true = .ok f.content ∧ (runFile true name f).lines = C04.splitLines f.content ∧
+      (runFile true name f).errs = 0) := by
+  have hiff : f.gzHeaderOk = true ↔ ∃ hd : Gz.Hdr, hd.WF ∧ hd.encode <+: f.content := by
+    unfold FileOracle.gzHeaderOk Gz.headerOk
+    cases hr : Gz.readHeader f.content with
+    | ok n =>
+      simp only [true_iff]
+      obtain ⟨hd', hw, hp, _⟩ := (gzip_header_spec f.content n).1 hr
+      exact ⟨hd', hw, hp⟩
+    | err e =>
+      simp only [Bool.false_eq_true, false_iff]
+      intro ⟨hd', hw, hp⟩
+      have := (gzip_header_spec f.content hd'.encode.length).2 ⟨hd', hw, hp, rfl⟩
+      rw [hr] at this; cases this
+  refine ⟨hiff, fun hn => ?_⟩
+  have hh : f.gzHeaderOk = false := by
+    cases h : f.gzHeaderOk with
+    | false => rfl
+    | true => exact absurd (hiff.1 h) hn
+  obtain ⟨h1, h2, h3, _⟩ := gunzip_fallback name f ho hd hh
+  exact ⟨h1, h2, h3⟩
+
+/-- Go against the letter of RFC 1952: the reserved FLG bits (and FTEXT) are ignored, `1f 8b 08 e1 …` is a gzip
+    file for rare; a wrong method byte, a wrong header CRC, a name that does not end, a header cut short are not –
+    those files are read as plain files; an empty file is `io.EOF` (also read as a plain, empty, file). -/
+theorem gzip_header_quirks :
+    Gz.readHeader [0x1f, 0x8b, 8, 0xe1, 0, 0, 0, 0, 0, 3, 3, 0] = .ok 10 ∧
+    Gz.readHeader [0x1f, 0x8b, 7, 0, 0, 0, 0, 0, 0, 3, 3, 0] = .err .header ∧
+    Gz.readHeader [0x1f, 0x8b, 8, 8, 0, 0, 0, 0, 0, 3, 97, 98] = .err .unexpectedEOF ∧
+    Gz.readHeader [0x1f, 0x8b, 8] = .err .unexpectedEOF ∧
+    Gz.readHeader [] = .err .eof ∧
+    Gz.readHeader [0x1f, 0x8b, 8, 2, 0, 0, 0, 0, 0, 3, 0, 0] = .err .header := by
+  decide +kernel
+
+/-- `gzip_header_spec` is not vacuous: a header with an extra field, a name and a header CRC -/
+example : (⟨0x0e, [0, 0, 0, 0, 0, 3], [1, 2], [97], []⟩ : Gz.Hdr).WF ∧
+    (⟨0x0e, [0, 0, 0, 0, 0, 3], [1, 2], [97], []⟩ : Gz.Hdr).encode
+      = [0x1f, 0x8b, 8, 0x0e, 0, 0, 0, 0, 0, 3, 2, 0, 1, 2, 97, 0, 73, 4] ∧
+    Gz.readHeader ([0x1f, 0x8b, 8, 0x0e, 0, 0, 0, 0, 0, 3, 2, 0, 1, 2, 97, 0, 73, 4] ++ [3, 0]) = .ok 18 := by
+  refine ⟨⟨rfl, by decide, ⟨by decide, by decide⟩, ⟨by decide, by decide⟩⟩, by decide +kernel, by decide +kernel⟩
 
 end Rare.C06
